@@ -256,6 +256,93 @@ def cases(tier, rng):
 
     yield "formitem-linear-elasticity", formitem
 
+    def formitem_kwargs(how):
+        """keyword arguments held by the ITEM and changed through item.update (ramp item given by position or by name)"""
+        f = hexfield()
+        from felupe.math import ddot, grad, sym, trace
+
+        @fem.Form(v=f, u=f)
+        def bilinearform():
+            def a(v, u, mu, lmbda):
+                de, e = sym(grad(v)), sym(grad(u))
+                return 2 * mu * ddot(de, e) + lmbda * trace(de) * trace(e)
+            return [a]
+
+        @fem.Form(v=f)
+        def linearform():
+            def L(v, mu, lmbda):
+                e = sym(f[0].grad())
+                return ddot(sym(grad(v)), 2 * mu * e + lmbda * trace(e) * np.eye(3).reshape(3, 3, 1, 1))
+            return [L]
+
+        item = fem.FormItem(bilinearform, linearform=linearform, kwargs={"mu": 1.0, "lmbda": 2.0}, ramp_item=1 if how == "index" else "lmbda")
+        item.assemble.vector(f)
+        item.update(3.5)
+        return item, f, True, False
+
+    for how in ("index", "name"):
+        yield "formitem-kwargs-update-%s" % how, lambda how=how: formitem_kwargs(how)
+
+    def formitem_load():
+        """a linear form that does not depend on the unknowns (dead load) and no bilinear form: zero matrix"""
+        f = hexfield()
+        from felupe.math import dot
+
+        @fem.Form(v=f)
+        def linearform():
+            def L(v):
+                return dot(v, np.array([1.0, -2.0, 0.5]).reshape(3, 1, 1), mode=(1, 1))
+            return [L]
+
+        return fem.FormItem(linearform=linearform), f, True, False
+
+    yield "formitem-dead-load", formitem_load
+
+    def formitem_threefield():
+        """the documented mixed-field pattern: (u, p, J) weak forms written with the expression API"""
+        f = mixed("3d")
+        umat = fem.ThreeFieldVariation(fem.NeoHooke(mu=1.0, bulk=5.0))
+        from felupe.math import ddot, grad
+
+        @fem.Form(v=f)
+        def linearform():
+            def L1(du, **kw):
+                linearform.dW = kw["umat"].gradient(kw["field"].extract())
+                return ddot(grad(du), linearform.dW[0])
+
+            def L2(dp, **kw):
+                return dp[0] * linearform.dW[1]
+
+            def L3(dJ, **kw):
+                return dJ[0] * linearform.dW[2]
+            return [L1, L2, L3]
+
+        @fem.Form(v=f, u=f)
+        def bilinearform():
+            def a11(du, Du, **kw):
+                bilinearform.d2W = kw["umat"].hessian(kw["field"].extract())
+                return ddot(ddot(grad(du), bilinearform.d2W[0], mode=(2, 4)), grad(Du))
+
+            def a12(du, Dp, **kw):
+                return ddot(grad(du), bilinearform.d2W[1]) * Dp[0]
+
+            def a13(du, DJ, **kw):
+                return ddot(grad(du), bilinearform.d2W[2]) * DJ[0]
+
+            def a22(dp, Dp, **kw):
+                return dp[0] * (0.0 if bilinearform.d2W[3] is None else bilinearform.d2W[3]) * Dp[0]       # absent block = zero
+
+            def a23(dp, DJ, **kw):
+                return dp[0] * bilinearform.d2W[4] * DJ[0]
+
+            def a33(dJ, DJ, **kw):
+                return dJ[0] * bilinearform.d2W[5] * DJ[0]
+            return [a11, a12, a13, a22, a23, a33]
+
+        return fem.FormItem(bilinearform, linearform, kwargs={"umat": umat, "field": f}), f, True, False
+
+    yield "formitem-threefield", formitem_threefield
+
 
 def c01(out, a):
     rng = np.random.RandomState(100 + a.seed)
@@ -404,7 +491,7 @@ def c14(out, a):
                 out.write({"id": rid, "kind": "balance", "nt": bool(np.any(fv != 0)), "fd": 3, "f": q(fv, S), "x": positions(f, 3),
                            "XS": XS, "dirs": [1, 2, 3], "moment": False, "about": [0, 0, 0], "skipped": [k + 1 for k in range(3) if skip[k]]})
         # mass matrices
-        for kind in ("hex1", "quad", "hex"):
+        for kind in ("hex1", "quad", "hex", "hex-ni"):
             rid = "mass-%s-%d" % (kind, rep)
             if not out.want(rid):
                 continue
@@ -413,7 +500,7 @@ def c14(out, a):
                 m = fem.Cube(b=(2, 1, 1), n=2)
                 f = fem.FieldContainer([fem.Field(fem.RegionHexahedron(m), dim=3)])
                 V = 2.0
-            elif kind == "hex":
+            elif kind in ("hex", "hex-ni"):
                 m = perturb(fem.Cube(n=3), rng)
                 f = fem.FieldContainer([fem.Field(fem.RegionHexahedron(m), dim=3)])
                 V = 1.0
@@ -421,7 +508,10 @@ def c14(out, a):
                 m = perturb(fem.Rectangle(b=(2, 1), n=3), rng)
                 f = fem.FieldContainer([fem.FieldPlaneStrain(fem.RegionQuad(m), dim=2)])
                 V = 2.0
-            item = fem.SolidBody(fem.NeoHooke(mu=1.0, bulk=2.0), f, density=rho)
+            if kind == "hex-ni":
+                item = fem.SolidBodyNearlyIncompressible(fem.NeoHooke(mu=1.0), f, bulk=20.0, density=rho)
+            else:
+                item = fem.SolidBody(fem.NeoHooke(mu=1.0, bulk=2.0), f, density=rho)
             M = item.assemble.mass().toarray()
             n = M.shape[0]
             fd = f[0].dim
